@@ -985,3 +985,132 @@ func c16Inproc(w *W) {
 func init() {
 	register(&Scenario{Name: "inproc-protocol-numbers", Prop: "C16", Horizon: time.Hour, Weight: 3, Run: c16Inproc})
 }
+
+// c16ManyStalled: many peers (8-48) connect and never complete their
+// handshake - silent, or a few bytes of a header - to a listener on a stream
+// transport (also the real tcp / ipc / tls+tcp listener code on the simulated
+// network; over tls+tcp the peers are silent before the TLS hello). None of
+// them may delay a conforming peer: it connects afterwards (or in the middle),
+// must be attached within 50 simulated ms and exchange a message; every call
+// on the listener still returns.
+func c16ManyStalled(w *W) {
+	kind := []string{"pull", "bus", "sub", "pair", "xrep", "xsurveyor", "star", "rep"}[w.Choose(simrt.SShape, 8)]
+	tran := []string{"sim", "simipc", "tcp", "ipc", "tls+tcp"}[w.Choose(simrt.SShape, 5)]
+	nstall := 8 + w.Choose(simrt.SShape, 41)
+	w.SetShape("kind", kind)
+	w.SetShape("tran", tran)
+	w.SetShape("stalled", nstall)
+	nt := w.UseNet(NetCfg{Segment: w.Choose(simrt.SShape, 2) == 0})
+	s := w.Sock(kind)
+	defer s.Close()
+	if kind == "sub" {
+		mustSet(w, s, mangos.OptionSubscribe, "")
+	}
+	attached := 0
+	s.SetPipeEventHook(func(ev mangos.PipeEvent, p mangos.Pipe) {
+		if ev == mangos.PipeEventAttached {
+			attached++
+		}
+	})
+	laddr := w.Addr(tran)
+	l, err := s.NewListener(laddr, w.EpOpts(laddr, true, nil))
+	if err != nil {
+		w.Failf("HARNESS/newlistener", "%v", err)
+		return
+	}
+	if err := l.Listen(); err != nil {
+		w.Failf("HARNESS/listen", "%v", err)
+		return
+	}
+	peerProto := protoOf(peerKind[kind])
+	var stalled []*NetConn
+	stallOne := func() {
+		c, err := nt.Dial(NetKey(laddr))
+		if err != nil {
+			w.Failf("HARNESS/dial", "%v", err)
+			return
+		}
+		w.Fault("hs-stall")
+		if tran != "tls+tcp" {
+			if n := w.Choose(simrt.SProg, 8); n > 0 {
+				c.Write(wcHeader(peerProto)[:n])
+			}
+		}
+		stalled = append(stalled, c)
+	}
+	before := w.Choose(simrt.SProg, nstall+1) // so many stall before the good peer connects, the rest while it does
+	for i := 0; i < before; i++ {
+		stallOne()
+		if w.Choose(simrt.SProg, 4) == 0 {
+			w.Settle()
+		}
+	}
+	w.Op("%s over %s: %d peers stalled in the handshake, then a conforming peer (and %d more stalling meanwhile)", kind, tran, before, nstall-before)
+	good := w.Sock(peerKind[kind])
+	defer good.Close()
+	if peerKind[kind] == "sub" {
+		mustSet(w, good, mangos.OptionSubscribe, "")
+	}
+	t0 := w.Now()
+	dc := w.Do("good.Dial", func() (interface{}, error) {
+		return nil, good.DialOptions(laddr, w.EpOpts(laddr, false, map[string]interface{}{mangos.OptionDialAsynch: false}))
+	})
+	for i := before; i < nstall; i++ {
+		stallOne()
+	}
+	for i := 0; i < 50 && (attached == 0 || !dc.Returned()); i++ {
+		w.Sleep(time.Millisecond)
+		w.Settle()
+	}
+	if attached == 0 || !dc.Returned() || dc.Err != nil {
+		w.Failf("C16/stalled-handshake-delays-others", "%s over %s: with %d peers stalled in their handshake a conforming peer was not attached within 50ms (attached=%d, Dial returned=%v err=%v, started at %v)%s", kind, tran, nstall, attached, dc.Returned(), dc.Err, t0, w.BlockedReport())
+		return
+	}
+	for _, c := range []*Call{
+		w.Do("Listener.GetOption", func() (interface{}, error) { return l.GetOption(mangos.OptionMaxRecvSize) }),
+		w.Do("Listener.SetOption", func() (interface{}, error) { return nil, l.SetOption(mangos.OptionMaxRecvSize, 4096) }),
+		w.Do("Listener.Address", func() (interface{}, error) { return l.Address(), nil }),
+	} {
+		if !c.Wait(time.Second) {
+			w.Failf("C12/call-never-returns:"+c.Label, "%s over %s: %d peers are stalled in their handshake; %s on the listener does not return%s", kind, tran, nstall, c.Label, w.BlockedReport())
+			return
+		}
+	}
+	// one message through the conforming connection, in a direction the pattern has
+	from, to, fk := good, s, peerKind[kind]
+	if kind == "xsurveyor" {
+		from, to, fk = s, good, kind // the survey goes out first
+	}
+	_ = from.SetOption(mangos.OptionSendDeadline, 100*time.Millisecond)
+	_ = to.SetOption(mangos.OptionRecvDeadline, 200*time.Millisecond)
+	rc := w.Do("Recv", func() (interface{}, error) { return to.RecvMsg() })
+	w.Sleep(time.Millisecond)
+	if err := SendBody(from, fk, []byte("after-the-stallers")); err != nil {
+		w.Failf("C16/control-peer-starved:"+kind, "%s over %s: Send on the conforming connection: %v", kind, tran, err)
+		return
+	}
+	if !rc.Wait(time.Second) || rc.Err != nil {
+		w.Failf("C16/control-peer-starved:"+kind, "%s over %s: with %d stalled peers the conforming peer's message was not delivered (returned=%v err=%v)", kind, tran, nstall, rc.Returned(), rc.Err)
+		return
+	}
+	m := rc.Val.(*mangos.Message)
+	if string(m.Body) != "after-the-stallers" {
+		w.Failf("C16/pollution:"+kind, "%s over %s delivered %q", kind, tran, clip(m.Body))
+	}
+	m.Free()
+	w.Delivery++
+	w.Probe("many-stalled-handshakes")
+	// the stallers go away in tape-chosen ways before the hygiene census
+	for _, c := range stalled {
+		switch w.Choose(simrt.SProg, 3) {
+		case 0:
+			c.Close()
+		case 1:
+			c.Reset()
+		}
+	}
+}
+
+func init() {
+	register(&Scenario{Name: "many-stalled-handshakes", Prop: "C16", Horizon: time.Hour, Weight: 3, Run: c16ManyStalled})
+}
